@@ -23,9 +23,8 @@ from ..common import strip_generics
 P = "preflate_rs::"
 
 STD_ITER = re.compile(r"^(std|core)::(iter|slice|array|ops|vec|str|collections)::|^<(std|core|alloc)::(iter|slice|array|ops|vec|str|collections)::[^>]* as (std|core)::iter::(Iterator|DoubleEndedIterator)>::next|^(std|core)::iter::range::")
-CONSUME = re.compile(r"(bit_reader::BitReader(::<[^>]*>)?::(get|read_byte)|deflate_reader::DeflateReader(::<[^>]*>)?::(read_bit|read_bits|read_block|decode_block)|huffman_helper::decode_symbol|"
-                     r"HuffmanReader::(fetch_next_literal_code|fetch_next_distance_char)|PredictionDecoder>?::decode_(correction|misprediction|value|verify_state)|"
-                     r"::decode_(correction|misprediction|value)$|TokenPredictor(::<[^>]*>)?::recreate_block|ReadBytesExt::read_u8|Read::read_exact|VP8Reader.*::get)")
+CONSUME = re.compile(r"(bit_reader::BitReader(::<[^>]*>)?::(get|read_byte)|deflate_reader::DeflateReader(::<[^>]*>)?::(read_bit|read_bits|read_block)|huffman_helper::decode_symbol|"
+                     r"HuffmanReader::(fetch_next_literal_code|fetch_next_distance_char)|ReadBytesExt::read_u8|Read::read_exact)")
 
 # (function, class-ordinal key) -> the measure that ends the loop; value-level, reviewed by reading the code
 REVIEWED = {
@@ -48,6 +47,12 @@ REVIEWED = {
         (3, "zlib build_tree / gen_bitlen: the heap shrinks by one per round; the overflow repair walks bit lengths downwards"),
     ("huffman_calc::calc_zlib::pqdownheap", "other"):
         (1, "zlib pqdownheap: j doubles until it passes the heap length"),
+    ("process::recreate_blocks", "other"):
+        (1, "replays the block list the analysis recorded: ends when the plaintext is used up and the recorded end-of-stream flag says so (own corrections only; foreign corrections are not claimed)"),
+    ("token_predictor::TokenPredictor::<'a>::recreate_block", "other"):
+        (1, "current_token_count (stepped in commit_token) runs up to the block size, or the plaintext ends"),
+    ("tree_predictor::reconstruct_ld_trees", "other"):
+        (1, "the remaining-symbols slice shrinks by at least one entry per round"),
     ("huffman_helper::decode_symbol", "other"):
         (1, "one bit per step down a validated, complete tree (C05/X2 tree rules): depth <= 15"),
 }
@@ -206,7 +211,17 @@ def classify(F, b, head, blocks):
             return "iter", "driven by %s" % ty[5:85]
         return "chain", "driven by an opaque iterator (%s)" % ty[:80]
     # reader-driven: every cycle consumes input
-    cons = {bb for bb, t in calls if CONSUME.search(callee_def(t)) or CONSUME.search(strip_generics(callee_def(t)))}
+    cons = set()
+    for bb, t in calls:
+        if not (CONSUME.search(callee_def(t)) or CONSUME.search(strip_generics(callee_def(t)))):
+            continue
+        # the call can fail, and its failure is looked at inside the loop (`?`): end of input ends the loop
+        dl = t["dest"]["l"] if t.get("dest") and not t["dest"]["p"] else None
+        if dl is None or not flow.strip_lifetimes(b.local_ty(dl)).startswith("std::result::Result<"):
+            continue
+        tried = any(re.search(r"Try>?::branch$", strip_generics(callee_def(t2))) and any((op_place(a) or {}).get("l") == dl for a in t2["args"]) for _, t2 in calls)
+        if tried:
+            cons.add(bb)
     if cons and not _cycle_without(b, blocks, head, cons):
         return "reader", "every cycle consumes input (%s)" % sorted({strip_generics(callee_def(b.term(x))).split("::")[-1] for x in cons})
     # counter-driven
